@@ -274,5 +274,9 @@ def _get_action_form_arguments(left, right):
 
     if isinstance(left, BaseForm):
         coefficients += left.coefficients()
+    elif isinstance(left, BaseCoefficient):
+        coefficients += (left,)
 
+    # Each coefficient once (it may occur in both operands)
+    coefficients = tuple(dict.fromkeys(coefficients))
     return arguments, coefficients
